@@ -9,6 +9,7 @@ import EaselModel.Msa.LemmasFrag
 import EaselModel.Msa.LemmasC2W
 import EaselModel.Msa.LemmasSsCols
 import EaselModel.Msa.LemmasNoPk
+import EaselModel.Msa.LemmasC2WSimple
 /-! # C15 — alignment transformations keep the alignment well formed and the residues intact; WUSS round trips
 
 Property theorems only; proofs are glue on the lemmas of `EaselModel/Msa/Lemmas*.lean`.
@@ -353,6 +354,12 @@ theorem nested_roundtrip (n : Nat) (ct : List Nat) (hct : CtOk n ct) (hn : Neste
 theorem nested_roundtrip_total (n : Nat) (ct : List Nat) (hct : CtOk n ct) (hn : Nested ct) :
     ∃ ss, ct2wuss ct = .ok ss ∧ wuss2ct ss = some ct :=
   nested_roundtrip_total' n ct hct hn
+
+/-- the same for `esl_ct2simplewuss` (`<>` for every pair, `.` for unpaired residues): it succeeds on every symmetric
+    nested table and `esl_wuss2ct` reads the table back -/
+theorem simple_nested_roundtrip_total (n : Nat) (ct : List Nat) (hct : CtOk n ct) (hn : Nested ct) :
+    ∃ ss, ct2simplewuss ct = .ok ss ∧ wuss2ct ss = some ct :=
+  simple_nested_roundtrip_total' n ct hct hn
 
 /-- NESTED structures, end to end on strings: `esl_msa_RemoveBrokenBasepairsFromSS` succeeds and the SS line it writes
     reads back as EXACTLY the original pairs whose two partners are both retained (`removeBroken_keeps_exactly`
